@@ -18,17 +18,18 @@ func H_C02_seq() {
 	// node handles from successful Put2 in the current epoch history
 	var hnode [12]*skiplist.Node
 	var hkey [12]int
+	var hslot [12]int // model slot of the version the handle refers to
 	nh := 0
 	for i := 0; i < nops; i++ {
 		w := ws[vChoice("w", i, nw)]
-		switch vChoice("op", i, 6) {
+		switch vChoice("op", i, 7) {
 		case 0: // Put2
 			k, v := vByte("key", i), vByte("val", i)
 			n := w.Put2(c.item(k, v))
 			exp := model.put(int(k), c.val(v))
 			vAssert((n != nil) == exp, "Put succeeds iff no live item with an equal key exists")
 			if n != nil {
-				hnode[nh], hkey[nh] = n, int(k)
+				hnode[nh], hkey[nh], hslot[nh] = n, int(k), model.n-1
 				nh++
 			} else {
 				vReach("put-rejected")
@@ -54,6 +55,18 @@ func H_C02_seq() {
 			n, ok := w.Delete2(c.item(k, vByte("val", i)))
 			vAssert(ok == model.del(int(k)), "Delete2 succeeds iff a live item exists")
 			vAssert(!ok || n != nil, "Delete2 returns the node it deleted")
+		case 6: // DeleteNode through a handle obtained from an earlier successful Put2
+			if nh == 0 {
+				vAssume(false)
+			}
+			h := vRange("handle", i, 0, nh-1)
+			// only handles of versions that are still live: what DeleteNode does with a stale handle is outside
+			// C02 (and in user-memory mode the node may already have been returned to the allocator)
+			vAssume(model.present[hslot[h]])
+			ok := w.DeleteNode(hnode[h])
+			vAssert(ok, "DeleteNode of a live version succeeds")
+			model.present[hslot[h]] = false
+			vReach("deletenode-live")
 		case 4: // NewSnapshot
 			if ns >= 8 {
 				vAssume(false)
